@@ -74,13 +74,13 @@ Example LP3_wf : forallb (gpos_lookup_wf_all F0) LP3 = true.  Proof. vm_compute.
 Example LP3_roundtrip : M_parse U0 F0 (M_explain_gpos U0 F0 LP3) = POk LP3.
 Proof. vm_compute. reflexivity. Qed.
 
-(* GPOS4 (in the model; its round trip is computed here, not yet a theorem) *)
+(* GPOS4 *)
 Definition LP4 : list lookup :=
   [ mkLookup 4 4 [Pos (Gpos4_1 [1; 3] [(1, (0, -3)%Z); (0, (10, 0)%Z)] [2; 5] [[(1, 1); (2, 2)]; [(-32768, 32767); (0, 0)]]%Z);
                   Pos (Gpos4_1 [4] [(0, (7, 8)%Z)] [] [])];
     mkLookup 1 0 [Gpos1_2 [8] [Some (mkV 1 2 3)]];
     mkLookup 4 0 [Pos (Gpos4_1 [7] [(0, (0, 0)%Z)] [7] [[(5, 5)]]%Z)] ].
-Example LP4_wf : forallb (fun lk => gpos_lookup_wf F0 lk || gpos4_lookup_wf F0 lk) LP4 = true.
+Example LP4_wf : forallb (gpos_lookup_wf_all F0) LP4 = true.
 Proof. vm_compute. reflexivity. Qed.
 Example LP4_roundtrip : M_parse U0 F0 (M_explain_gpos U0 F0 LP4) = POk LP4.
 Proof. vm_compute. reflexivity. Qed.
